@@ -5,3 +5,9 @@ pub fn noop() {}
 pub fn empty_format(_args: core::fmt::Arguments<'_>) -> String {
     String::new()
 }
+
+/// Replacement for `std::hash::RandomState::new`: fixed keys (the real one reads OS randomness
+/// through a syscall Kani cannot model). Hash values are not the subject of any property.
+pub fn fixed_random_state() -> std::hash::RandomState {
+    unsafe { std::mem::transmute::<[u64; 2], std::hash::RandomState>([0x5eed, 0xf00d]) }
+}
